@@ -381,6 +381,7 @@ r_buf_alloc(uintptr_t fd, size_t size, size_t min_block_size) {
 		goto err_out;
 	}
 	//r_buf->iov_index = ~0; /* r_buf_wbuf_get() increment this, set to: -1. */
+	r_buf->iov[0].iov_base = r_buf->buf; /* Readers may look before first r_buf_wbuf_get(). */
 	r_buf->buf_max = (r_buf->buf + r_buf->size);
 	r_buf->min_block_size = min_block_size;
 
